@@ -45,6 +45,14 @@ namespace cs
                 problem = "an element was constructed on top of a live element";
             ++total_constructed;
         }
+        // a construction that cannot fail (a noexcept constructor): registered, not counted for fault injection
+        void born_quiet(const void* p, int& id) noexcept
+        {
+            id = next_id++;
+            if (!alive.insert({p, id}).second && problem.empty())
+                problem = "an element was constructed on top of a live element";
+            ++total_constructed;
+        }
         void died(const void* p, int id)
         {
             auto it = alive.find(p);
@@ -107,6 +115,32 @@ namespace cs
         friend bool operator<(const Inst& a, const Inst& b)
         {
             return a.value < b.value;
+        }
+    };
+
+    // like Inst, but its default constructor is noexcept while the constructor from a value can fail
+    // (is_nothrow_default_constructible says nothing about the constructor a helper really calls)
+    template <std::size_t Pad, std::size_t Align>
+    struct alignas(Align) InstN
+    {
+        int           id;
+        int           value;
+        unsigned char pad[Pad];
+        InstN() noexcept : value(0)
+        {
+            ctl().born_quiet(this, id);
+        }
+        explicit InstN(int v) : value(v)
+        {
+            ctl().born(this, id);
+        }
+        InstN(const InstN& o) : value(o.value)
+        {
+            ctl().born(this, id);
+        }
+        ~InstN()
+        {
+            ctl().died(this, id);
         }
     };
 } // namespace cs
